@@ -38,7 +38,7 @@ def dataset_cfg(rng, tier, prop):
            # the Dataset constructor joins outer whatever the global default of align() is
            "align_join": rng.choice(["outer", "outer", "outer", "inner"])}
     if rng.random() < 0.06:
-        cfg["max_len"], cfg["max_rank"], cfg["big"] = rng.randint(6, 24), min(cfg["max_rank"], 2), True
+        cfg["max_len"], cfg["max_rank"], cfg["big"] = rng.choice([rng.randint(6, 24)] * 4 + [rng.randint(101, 130)]), min(cfg["max_rank"], 2), True
     cfg["min_len"] = min(cfg["min_len"], cfg["max_len"])
     if mode == "enum":
         cfg["n_base"] = rng.randint(2, 8)
@@ -179,6 +179,7 @@ class DatasetWorld(object):
         self.props = set(props)
         self.donors = []      # arrays handed to the dataset (C15: later changes of the dataset must not reach them)
         self.last_dsop = None
+        self.extracted = []   # variables taken out of the dataset earlier (v = ds[k]) and possibly assigned again later
         self.ds = None
         self.model = None
         self.counts = []
@@ -317,9 +318,21 @@ class DatasetWorld(object):
             sp = self._spec(rng)
             for i, d in enumerate(sp["dims"]):
                 if d in shared:
-                    if how == "ctor_diff" and rng.random() < 0.6:
+                    r = rng.random()
+                    if how == "ctor_diff" and r < 0.55:
                         kind = self.cfg["dim_kind"].get(d)
                         labs = V.gen_labels(rng, rng.randint(max(1, self.cfg["min_len"]), self.cfg["max_len"]), kind, rng.choice(self.cfg["orders"]))
+                    elif how == "ctor_diff" and r < 0.8 and len(shared[d]) >= 2:
+                        # the same labels in another order (same ends when long enough): still to be aligned
+                        labs = list(shared[d])
+                        if len(labs) >= 4 and rng.random() < 0.6:
+                            mid = labs[1:-1]
+                            while mid == labs[1:-1]:
+                                rng.shuffle(mid)
+                            labs = [labs[0]] + mid + [labs[-1]]
+                        else:
+                            while labs == shared[d]:
+                                rng.shuffle(labs)
                     else:
                         labs = shared[d]
                     sp = V.gen_array_spec(rng, self.cfg, dims=sp["dims"], labels=[labs if j == i else l for j, l in enumerate(sp["labels"])], dtype=sp["dtype"])
@@ -340,7 +353,17 @@ class DatasetWorld(object):
         choices += ["append_axis", "meta"]
         if dims:
             choices += ["query", "query", "axes_assign", "fork_copy"]
+        if keys:
+            choices += ["extract"]
+        if self.extracted or getattr(self, "n_extract_gen", 0):
+            choices += ["reassign", "reassign"]
         what = rng.choice(choices)
+        if what == "extract":
+            self.n_extract_gen = getattr(self, "n_extract_gen", 0) + 1
+            return {"op": "extract", "key": rng.choice(keys), "copy": rng.random() < 0.4}
+        if what == "reassign":
+            free = [k for k in KEYS + ["e", "f"] if k not in keys]
+            return {"op": "reassign", "slot": rng.randrange(2), "key": rng.choice(free) if (free and rng.random() < 0.7) or not keys else rng.choice(keys)}
         if what == "query":
             # reads that populate caches (monotonicity flag, repr); the model does not move
             return {"op": "query", "what": rng.choice(["mono", "mono", "repr", "var_mono"]), "dim": rng.choice(dims)}
@@ -448,6 +471,8 @@ class DatasetWorld(object):
                 return self._gen_mutation(rng)
             st = {"op": "axes_setitem", "dim": d, "by_pos": rng.random() < 0.5, "new": new,
                   "as": rng.choice(["axis", "axis", "list"])}
+            if st["as"] == "axis" and new and not isinstance(new[0], str) and rng.random() < 0.15:
+                st["objdtype"] = True       # numbers held in an object array: still "any label kind"
             if st["as"] == "axis" and rng.random() < 0.25:
                 free = [n for n in NEW_NAMES if n not in dims]
                 if free:
@@ -844,6 +869,62 @@ class DatasetWorld(object):
         else:
             raise ValueError(via)
 
+    def x_extract(self, s):
+        if s["key"] not in self.model.vars:
+            raise Skip("key")
+        v = self.ds[s["key"]]
+        if s.get("copy"):
+            v = v.copy()
+        self.extracted = (self.extracted + [v])[-2:]
+        return "ok"
+
+    def x_reassign(self, s):
+        """A variable taken out of this dataset earlier is assigned again: accepted or refused on its labels *now*,
+        like any other array (it may have followed the dataset's relabellings, or been left behind by a deleted axis)."""
+        if s["slot"] >= len(self.extracted):
+            raise Skip("slot")
+        v = self.extracted[s["slot"]]
+        labels = [py_labels(ax.values) for ax in v.axes]
+        if any(any(isinstance(x, (tuple, list)) or x is None for x in l) for l in labels):
+            raise Skip("labels")
+        kind = v.values.dtype.kind
+        if kind not in "fib":
+            raise Skip("dtype")
+        spec = {"dims": list(v.dims), "labels": labels, "dtype": {"f": "f8", "i": "i8", "b": "b1"}[kind], "values": v.values.tolist(),
+                "attrs": _copy.deepcopy(dict(v.attrs)), "axattrs": [_copy.deepcopy(dict(ax.attrs)) for ax in v.axes]}
+        accepted = self.model.accepts(spec)
+        before = self.identity_state(self.ds)
+        v_before = V.snap(v)
+        raised = None
+        try:
+            self.ds[s["key"]] = v
+        except Exception as e:
+            raised = e
+        self.count("c13:reassign_extracted_%s" % ("accepted" if accepted else "refused"))
+        if "C15" in self.props and V.snap(v) != v_before:
+            raise Violation("C15", "operand_changed", "ds[%r] = <variable taken from the dataset earlier> changed that array: %s" % (
+                s["key"], V.describe_snap_diff(v_before, V.snap(v))))
+        if accepted:
+            if raised is not None:
+                if "C13" in self.props:
+                    raise Violation("C13", "ds_accept", "ds[%r] = <variable taken from the dataset earlier, labels matching> raised %s: %s" % (
+                        s["key"], type(raised).__name__, str(raised)[:160]))
+                raise Skip("raised")
+            self.model.setitem(s["key"], spec)
+            self.n_mut += 1
+            return "ok"
+        self.n_rej += 1
+        self.count("fault:rejected_assignment")
+        if "C13" in self.props:
+            if not isinstance(raised, ValueError):
+                raise Violation("C13", "ds_reject_raises", "ds[%r] = <variable taken from the dataset earlier> whose labels %r now disagree with the dataset's %s" % (
+                    s["key"], dict(zip(v.dims, labels)), "was accepted" if raised is None else "raised %s instead of ValueError" % type(raised).__name__))
+            after = self.identity_state(self.ds)
+            if after != before:
+                raise Violation("C13", "ds_reject_noop", "rejected ds[%r] = <variable taken from the dataset earlier> changed the dataset: %s" % (
+                    s["key"], V.describe_snap_diff(before[0], after[0]) or "object identities changed"))
+        return "rejected" if raised is not None else "accepted!"
+
     def x_set_raw(self, s):
         self.ds[s["key"]] = s["value"]
         self.model.setitem(s["key"], {"dims": [], "labels": [], "dtype": "f8" if isinstance(s["value"], float) else "i8", "values": s["value"]})
@@ -998,6 +1079,9 @@ class DatasetWorld(object):
         key = list(ds.dims).index(d) if s["by_pos"] else d
         users = sum(1 for v in m.vars.values() if d in v["dims"])
         arr = V.label_array(s["new"])
+        if s.get("objdtype") and arr.dtype.kind in "if":
+            arr = np.array(s["new"], dtype=object)
+            self.count("c13:axis_object_dtype_numbers")
         val = Axis(arr, newname or d) if s["as"] == "axis" else s["new"]
         try:
             ds.axes[key] = val
